@@ -99,6 +99,11 @@ func (a *activityManager) dispatch() {
 		raftNode = a.getRaft()
 		index    = a.LastPublishedRaftIndex() + 1
 	)
+	// Entries up to the latest snapshot may have been compacted out of the log.
+	// Start at the first entry there is.
+	if first, err := raftNode.store.FirstIndex(); err == nil && index < first {
+		index = first
+	}
 	for {
 		select {
 		case <-a.leadershipLostCh:
